@@ -35,6 +35,7 @@ func (c08) Gen(rng *rand.Rand, tier string, idx int) Case {
 	ooo := oooChoices[rng.Intn(len(oooChoices))]
 	c.Cfg = [][]string{{"kind", "sliding"}, {"mode", "et"}, {"size", itoa(size)}, {"slide", itoa(slide)}, {"ooo", itoa(ooo)}, {"late", "0"}, {"now", "0"}}
 	genWindowOps(rng, &c, slide, ooo, false, nil)
+	bigEpoch(rng, &c)
 	switch {
 	case slide == size:
 		c.Stat = append(c.Stat, "slide=size")
